@@ -116,7 +116,23 @@ impl Engine for SniEngine {
             *seen2.lock().unwrap() = Some(flag);
             async move { Ok::<_, std::convert::Infallible>(http::Response::new(())) }
         });
-        let mut svc = ValidateSNI.layer(inner);
+        let shared = ValidateSNI.layer(inner);
+        // The middleware is cloned per connection (make-service). Requests of *other* connections - with
+        // another server name, with none, or without TLS - go through clones of the same instance
+        // first; they must not influence how this request is judged.
+        if c.version % 2 == 0 {
+            for (i, other) in [Some("warmup.example"), None].into_iter().enumerate() {
+                let mut w = http::Request::builder().version(http::Version::HTTP_11).uri("/w").header(http::header::HOST, "warmup.example").body(()).unwrap();
+                if i == 0 || c.tls {
+                    w.extensions_mut().insert(TlsConnectionInfo { server_name: other.map(String::from), validated_server_name: false, alpn: None });
+                }
+                let mut clone = shared.clone();
+                let _ = futures_util::FutureExt::now_or_never(async { clone.ready().await.unwrap().call(w).await });
+            }
+            *seen.lock().unwrap() = None;
+            rep.class("other-connections-first");
+        }
+        let mut svc = shared.clone();
         let result = futures_util::FutureExt::now_or_never(async { svc.ready().await.unwrap().call(req).await });
         let Some(result) = result else {
             rep.internal_error = Some("middleware future did not complete immediately".into());
